@@ -391,11 +391,14 @@ class Gen:
                 return ("dot", ("grp", ("kw", "SELF"), self_ent), r.choice(self_attrs))
         if c < 0.74 and aggr_ids:
             # an index is a simple_expression: relational/logical operators directly inside [] are not generated (see notes/C07.md)
-            def ix():
-                e = self.expr(ids, 1, aggr_ids)
-                while e[0] == "op" and e[1] in EXPR_OPS:
-                    e = ("op", r.choice(["plus", "minus", "times"]), e[2], e[3])
+            def simple(e):
+                if e[0] == "op":
+                    return ("op", e[1] if e[1] in SIMPLE_OPS else r.choice(["plus", "minus", "times"]), simple(e[2]), simple(e[3]))
+                if e[0] in ("neg", "not"):
+                    return (e[0], simple(e[1]))
                 return e
+            def ix():
+                return simple(self.expr(ids, 1, aggr_ids))
             if r.random() < 0.6:
                 self.hit("op:index"); return ("idx", ("id", r.choice(aggr_ids)), ix())
             self.hit("op:subcomponent")
